@@ -268,11 +268,41 @@ pub fn grid() -> Vec<(&'static str, Vec<Decl>)> {
     for f in [&["u8"][..], &[][..]] {
         s.push(mk(Mac::Unsized, Kind::Tuple, false, &[], v(f), vec![], v(&["list"])));
     }
-    for f in [&["T"][..], &["bool", "T"][..], &["T", "u8"][..], &["phT", "u8"][..], &["u8"][..], &["T", "bool", "T"][..]] {
-        for t in [&["list"][..], &["rem"][..], &["rem", "list"][..]] {
-            s.push(mk(Mac::Unsized, Kind::Struct, true, &[], v(f), vec![], v(t)));
+    // generic structs, with and without the `_generics` marker; a type with invalid bit patterns
+    // (bool / checked enum) at the first, a middle and the last position of the sized part
+    const GENERIC_SIZED: &[&[&str]] = &[
+        &["T"],
+        &["bool", "T"],
+        &["T", "u8"],
+        &["T", "bool"],
+        &["phT", "u8"],
+        &["phT", "bool"],
+        &["u8"],
+        &["T", "bool", "T"],
+        &["bool", "T", "u8"],
+        &["ne", "u8", "T"],
+        &["u8", "bool", "T"],
+        &["T", "u8", "ne"],
+        &["bool", "ne", "T"],
+        &["T", "T"],
+        &["Tx2", "bool"],
+        &["bool", "Tx2"],
+    ];
+    for mac in [Mac::Unsized, Mac::UnsizedNp] {
+        for f in GENERIC_SIZED {
+            for t in [&["list"][..], &["rem"][..], &["rem", "list"][..]] {
+                s.push(mk(mac, Kind::Struct, true, &[], v(f), vec![], v(t)));
+            }
         }
     }
+    // `skip_phantom_generics` on non-generic structs is accepted and changes nothing
+    for f in [&["bool", "u8"][..], &["u8", "bool"][..], &[][..], &["unit"][..], &["u16", "ne"][..]] {
+        for t in [&["list"][..], &["rem", "list"][..]] {
+            s.push(mk(Mac::UnsizedNp, Kind::Struct, false, &[], v(f), vec![], v(t)));
+        }
+    }
+    s.push(mk(Mac::UnsizedNp, Kind::Struct, true, &[&["C"]], v(&["bool", "T"]), vec![], v(&["list"])));
+    s.push(mk(Mac::UnsizedNp, Kind::Tuple, true, &[], v(&["bool", "T"]), vec![], v(&["list"])));
     out.push(("unsized", s));
     out
 }
@@ -285,7 +315,7 @@ pub fn quick_quota(stratum: &str) -> usize {
         "align1/enum" => 300,
         "zc/struct" => 600,
         "zc/other" => 200,
-        "unsized" => 250,
+        "unsized" => 330,
         _ => 0,
     }
 }
@@ -332,6 +362,8 @@ pub fn documented() -> Vec<(Decl, bool)> {
         (mk(Mac::Unsized, Kind::Struct, false, &[], v(&["u64"]), vec![], v(&["list"])), true),
         // proc lib.rs: `MyAccount { sized_field: u64, another_sized_field: bool, #[unsized_start] bytes: List<u8>, map: Map<..> }`
         (mk(Mac::Unsized, Kind::Struct, false, &[], v(&["u64", "bool"]), vec![], v(&["list", "list"])), true),
+        // unsize/tests/struct_test.rs: `#[unsized_type(skip_idl, skip_phantom_generics)] struct WithSizedGenerics<A, B> { sized1: A, sized2: B, sized3: u8, #[unsized_start] .. }`
+        (mk(Mac::UnsizedNp, Kind::Struct, true, &[], v(&["T", "T", "u8"]), vec![], v(&["list"])), true),
         // unsize/mod.rs doctests
         (mk(Mac::Unsized, Kind::Struct, false, &[], v(&["u8"]), vec![], v(&["rem"])), true),
         (mk(Mac::Unsized, Kind::Struct, false, &[], v(&["unit"]), vec![], v(&["list"])), false),
@@ -369,13 +401,13 @@ fn random_fields(rng: &mut Rng, generic: bool, max: u64) -> Vec<String> {
 
 /// A PRNG-driven declaration from the whole grammar (not restricted to the grid's lists).
 pub fn random_decl(rng: &mut Rng) -> Decl {
-    let mac = *rng.pick(&[Mac::Align1, Mac::Align1, Mac::Align1, Mac::Align1, Mac::Zc, Mac::ZcPod, Mac::ZcSkip, Mac::Unsized]);
+    let mac = *rng.pick(&[Mac::Align1, Mac::Align1, Mac::Align1, Mac::Align1, Mac::Zc, Mac::ZcPod, Mac::ZcSkip, Mac::Unsized, Mac::UnsizedNp]);
     let generic = rng.chance(1, 5);
-    if mac == Mac::Unsized {
+    if mac.is_unsized() {
         let n = rng.range(1, 3);
         let tail = (0..n).map(|_| rng.pick(&crate::decl::UTYS).to_string()).collect();
         let fields = if generic {
-            (0..rng.below(3)).map(|_| rng.pick(&["T", "u8", "bool", "unit", "phT"]).to_string()).collect()
+            (0..rng.below(4)).map(|_| rng.pick(&["T", "T", "u8", "bool", "ne", "unit", "phT"]).to_string()).collect()
         } else {
             random_fields(rng, false, 3)
         };
